@@ -693,7 +693,7 @@ class Crate(object):
                 self._register(f)
                 i = j + 1
                 continue
-            m = re.match(r'^const (.*?): (.*?) = const (.*);$', line)
+            m = re.match(r'^const (.*): (.*?) = const (.*);$', line)
             if m:
                 self.consts[m.group(1).split('::')[-1]] = (m.group(2), parse_const(m.group(3)))
             i += 1
